@@ -99,6 +99,10 @@ def classify(expr):
     m = re.fullmatch(r"(\w+)\.load\(\)\?\.admin==(\w+)\.key\(\)", e)
     if m:
         return ("adminEq", m.group(1), m.group(2))
+    # a venue account (Solend reserve) must have been refreshed in the current slot: `!X.load()?.is_stale()?`
+    m = re.fullmatch(r"!(\w+)\.load\(\)\?\.is_stale\(\)\?", e)
+    if m:
+        return ("venueFresh", m.group(1))
     return ("other", e)
 
 
@@ -269,6 +273,8 @@ def main():
                     cl.append("(.zeroWeightRecv .f_%s .f_%s)" % (lean_ident(c[1]), lean_ident(c[2])))
                 elif c[0] == "adminEq":
                     cl.append("(.adminEq .f_%s .f_%s)" % (lean_ident(c[1]), lean_ident(c[2])))
+                elif c[0] == "venueFresh":
+                    cl.append("(.venueFresh .f_%s)" % lean_ident(c[1]))
                 else:
                     others.append((name, fname, c[1]))
                     cl.append("(.other %d)" % (len(others) - 1))
@@ -292,6 +298,7 @@ def main():
   | flagSet (acct : F) (fl : Fl)
   | zeroWeightRecv (acct bank : F)
   | adminEq (group admin : F)
+  | venueFresh (venue : F)
   | other (n : Nat)
   deriving DecidableEq, Repr
 
@@ -321,6 +328,15 @@ structure Field where
         L.append("  | .ix_%s => %s" % (lean_ident(i), ("some ." + lean_ident(sn)) if sn in snames else "none"))
     L.append("")
     L.append("def allIx : List Ix := [" + ", ".join(".ix_" + lean_ident(i) for i, _ in ixmap) + "]\n")
+    # fingerprints of the unrecognised constraint expressions (whitespace-normalised text, polynomial hash mod 2^61-1):
+    # a theorem pins them, so that an edit of any constraint the translator cannot classify is a broken obligation
+    def fp(t):
+        h = 0
+        for ch in t:
+            h = (h * 1000003 + ord(ch)) % ((1 << 61) - 1)
+        return h
+    L.append("/-- (struct, field, fingerprint of the normalised expression) of every constraint kept as `.other n`, in order -/")
+    L.append("def otherFingerprints : List (S × F × Nat) := [" + ", ".join("(.%s, .f_%s, %d)" % (lean_ident(sn), lean_ident(fn), fp(e)) for (sn, fn, e) in others) + "]\n")
     L.append("/- unrecognised constraint expressions (kept as `.other n`):")
     for n, (sn, fn, e) in enumerate(others):
         L.append(f"  {n}: {sn}.{fn}: {e[:300]}")
